@@ -157,7 +157,7 @@ func (c *CroltSimple) Rem(ctx *core.Context, id string) (bool, error) {
 		return false, errors.New("no location in ctx")
 	}
 
-	url := strings.Trim(c.CroltURL, "/rem")
+	url := strings.Trim(c.CroltURL, "/") + "/rem"
 	url += "?account=" + ctx.Location().Name
 	url += "&id=" + id
 	ctx.Log(core.INFO, "Cron.Rem", "url", url)
